@@ -481,7 +481,7 @@ def _run(sc, cfg, res, clock, log):
                         want_pc = (100 * step) // mx
                         if int(f["percent"]) != want_pc:
                             res.violate("frame_percent", kind, "frame shows %s%% for %r/%r (exact floor %d)" % (f["percent"].strip(), step, mx, want_pc))
-                    M["last_frame"] = {"f": f, "step_at": step, "max_at": mx, "call": name}
+                    M["last_frame"] = {"f": f, "step_at": step, "max_at": mx, "call": name, "lines": list(frame_lines)}
                 cur_len = max(len(x) for x in frame_lines) if frame_lines else 0
                 if cur_len < M["prev_frame_len"]:
                     res.probe("frame_shorter_than_previous")
@@ -575,6 +575,11 @@ def _run(sc, cfg, res, clock, log):
                 if "current" in f and int(f["current"]) != mx:
                     res.violate("finish_draws", kind, "last frame after finish shows %s, maximum is %r" % (f["current"].strip(), mx))
                 # "at 100 %" presupposes a maximum known when the bar was set up
+                if kind == "ansi" and "lines" in lf and not M["first_frame"]:
+                    nl_ = len(lf["lines"])
+                    shown = [screen.row_text(M["base"] + i) for i in range(nl_)]
+                    if shown != lf["lines"]:
+                        res.violate("finish_draws", "screen", "after finish the terminal shows %r, the final frame is %r" % (shown, lf["lines"]))
                 if "percent" in f and cfg["max"] and int(f["percent"]) != 100:
                     res.violate("finish_draws", "percent", "last frame after finish shows %s%%" % f["percent"].strip())
         res.states.add((kind, mx, step, (M["format"] or "").count("\n"), bool(min_us and not drew)))
